@@ -352,6 +352,13 @@ pub fn conforms(expect: &J, got: &J) -> bool {
                     return false;
                 }
             }
+            // C09: what a message must not say (suggestions for items that are data)
+            if let Some(fs) = expect.get("forbid").and_then(J::as_array) {
+                let text = got["text"].as_str().unwrap_or("");
+                if fs.iter().filter_map(J::as_str).any(|f| text.contains(f)) {
+                    return false;
+                }
+            }
             !got["text"].as_str().unwrap_or("").is_empty()
         }
         "completion" => {
